@@ -902,6 +902,17 @@ func (c *VC) assign(st *State, lhs ast.Expr, v *Term) {
 				k := c.coerce(st, c.eval(st, l.Index), c.typeOf(l.Index), mt.Key())
 				k = c.mapKey(mt, k)
 				c.monotoneMapStore = false
+				if len(c.frames) == 1 {
+					d := c.fn.Dir
+					if c.fn.Contract != nil {
+						d = c.fn.Contract.Dir
+					}
+					if d != nil && d.InsertOnlyMap[exprText(c.prog.fset, l.X)] {
+						// `insert-only-map m`: a store never replaces an existing entry (first one wins)
+						_, present := c.mapRead(st, mt, h, k)
+						c.addObl("own/insert-only-map", text+": the key is not in the map yet", l.Pos(), st.pc, mkNot(present))
+					}
+				}
 				if id, ok := ast.Unparen(l.X).(*ast.Ident); ok && len(c.frames) == 1 {
 					d := c.fn.Dir
 					if c.fn.Contract != nil {
